@@ -29,7 +29,7 @@ func init() {
 		var pts []*object.Point
 		for _, it := range split(a[0]) {
 			f := strings.Split(it, ":")
-			p, err := object.NewPoint(atof(f[0]), atof(f[1]), atof(f[2]))
+			p, err := argPoint(atof(f[0]), atof(f[1]), atof(f[2]))
 			if err != nil {
 				return "BADARG"
 			}
